@@ -14,7 +14,7 @@ import random
 
 from ..core import MachineryError, NCPU
 from .. import lib_units as L
-from .C17 import MUTS, _consts, _write
+from .C17 import _consts, _write
 
 CLAUSE = {'R': 'RoundTripCompletes', 'OU': 'OriginalUntouched', 'T': 'SameText', 'E': 'Equal', 'S': 'ScopesReattached',
           'ST': 'ScopesReattached:types', 'EQ': 'Equal:__eq__', 'EH': 'Equal:__hash__'}
@@ -216,3 +216,23 @@ def run(ctx):
         'the TLA+ side of C18 is thin: Unpickle is one step of the CloneAlias heap model; TLC compares the observed views/tags/type '
         'strings with it (see notes/C18.md)',
     ]
+
+
+def selftest(ctx):
+    """Binding check of the trace validation: an honest case is accepted, corrupted recordings are rejected."""
+    import copy
+    fx = L.gen_fixture('mod', random.Random(3), {'typedef': True, 'cast': False})
+    good = roundtrip(fx)
+    bad1 = copy.deepcopy(good)
+    bad1['u']['memparent'] = ['none-wrong']
+    bad2 = copy.deepcopy(good)
+    bad2['types_u'][0] = bad2['types_u'][0].replace('int', 'real')
+    bad3 = copy.deepcopy(good)
+    bad3['u']['body'] = bad3['u']['body'][1:]
+    bad4 = copy.deepcopy(good)
+    bad4['equal'] = False
+    v = ctx.validate('Trace_PickleRT', 'Trace_PickleRT', [good, bad1, bad2, bad3, bad4])
+    want = [(True, 'ok'), (False, 'S:mp;'), (False, 'ST;'), (False, 'E:body;'), (False, 'EQ;')]
+    got = [(v[i][0], v[i][1]) for i in range(5)]
+    print('selftest C18', 'PASS' if got == want else f'FAIL {got}')
+    return 0 if got == want else 2
